@@ -16,7 +16,7 @@ tmpl = open('/verif/seed_prompt_template.txt').read()
 head = tmpl.split("THE PROPERTY YOUR CHANGE MUST BREAK:")[0].replace("/tmp/seed2-C05", wt)
 tail = "REQUIREMENTS FOR THE CHANGE" + tmpl.split("REQUIREMENTS FOR THE CHANGE")[1].replace("/tmp/seed2-C05", wt)
 mid = f"THE PROPERTY YOUR CHANGE MUST BREAK:\n{pid} — {prop['title']}\n\nSTATEMENT: {prop['statement']}\n\nQUANTIFIED OVER: {prop['quantifier']['text']}\n\n\n"
-if rnd >= "4":
+if int(rnd) >= 4:
     mid += "WHERE THE PROPERTY IS IMPLEMENTED (part of the property record; line numbers may have drifted a little):\n"
     for m in prop["anchors"]["mechanism"]:
         mid += " - %s  [%s]\n" % (m["name"], m["where"])
